@@ -1,4 +1,5 @@
 import ObiVerif.Model.Fp
+import ObiVerif.Lemmas.FpBasic
 /-!
 # C20 — fixed-precision integers agree with exact arithmetic (property theorems)
 
@@ -61,5 +62,154 @@ theorem u128_add_exact (u v : U128) (hu : u.WF) (hv : v.WF) :
   · have : (((u.w1 + v.w1 + (u.w0 + v.w0 + 0) / 18446744073709551616) / 18446744073709551616 != 0) = true) := by
       simp; omega
     rw [if_pos this, if_neg h]
+
+/-- `Add64`: no hypothesis on `v` is needed (a Go `uint64` argument is `< W` anyway) -/
+theorem u128_add64_exact (u : U128) (v : Nat) (hu : u.WF) :
+    U128.add64 u v = if u.toNat + v < W * W then .ok (U128.ofNat (u.toNat + v)) else .error () := by
+  obtain ⟨h1, h0⟩ := hu
+  unfold U128.add64 bitsAdd64 U128.toNat U128.ofNat
+  simp only [W] at *
+  by_cases h : u.w1 * 18446744073709551616 + u.w0 + v < 18446744073709551616 * 18446744073709551616
+  · have : ¬ (((u.w1 + 0 + (u.w0 + v + 0) / 18446744073709551616) / 18446744073709551616 != 0) = true) := by
+      simp; omega
+    rw [if_neg this, if_pos h]; congr 2 <;> omega
+  · have : (((u.w1 + 0 + (u.w0 + v + 0) / 18446744073709551616) / 18446744073709551616 != 0) = true) := by
+      simp; omega
+    rw [if_pos this, if_neg h]
+
+theorem u128_sub_exact (u v : U128) (hu : u.WF) (hv : v.WF) :
+    U128.sub u v = if v.toNat ≤ u.toNat then .ok (U128.ofNat (u.toNat - v.toNat)) else .error () := by
+  obtain ⟨h1, h0⟩ := hu
+  obtain ⟨k1, k0⟩ := hv
+  unfold U128.sub bitsSub64 U128.toNat U128.ofNat
+  simp only [W] at *
+  by_cases a : v.w0 + 0 ≤ u.w0 <;> simp only [a, if_true, if_false]
+  · by_cases b : v.w1 + 0 ≤ u.w1 <;> simp only [b, if_true, if_false]
+    · have h : v.w1 * 18446744073709551616 + v.w0 ≤ u.w1 * 18446744073709551616 + u.w0 := by omega
+      rw [if_pos h]; simp; constructor <;> omega
+    · have h : ¬ v.w1 * 18446744073709551616 + v.w0 ≤ u.w1 * 18446744073709551616 + u.w0 := by omega
+      rw [if_neg h]; simp
+  · by_cases b : v.w1 + 1 ≤ u.w1 <;> simp only [b, if_true, if_false]
+    · have h : v.w1 * 18446744073709551616 + v.w0 ≤ u.w1 * 18446744073709551616 + u.w0 := by omega
+      rw [if_pos h]; simp; constructor <;> omega
+    · have h : ¬ v.w1 * 18446744073709551616 + v.w0 ≤ u.w1 * 18446744073709551616 + u.w0 := by omega
+      rw [if_neg h]; simp
+
+theorem u128_mul64_exact (u : U128) (v : Nat) (hu : u.WF) (hv : v < W) :
+    U128.mul64 u v = if u.toNat * v < W * W then .ok (U128.ofNat (u.toNat * v)) else .error () := by
+  obtain ⟨h1, h0⟩ := hu
+  unfold U128.mul64 bitsMul64 bitsAdd64 U128.toNat U128.ofNat
+  have b0 := mul_limb_le h0 hv
+  have b1 := mul_limb_le h1 hv
+  rw [Nat.add_mul, Nat.mul_right_comm]
+  generalize u.w0 * v = p0 at *
+  generalize u.w1 * v = p1 at *
+  simp only [W] at *
+  by_cases h : p1 * 18446744073709551616 + p0 < 18446744073709551616 * 18446744073709551616
+  · rw [if_pos h, if_neg (by simp; omega)]; congr 2 <;> omega
+  · rw [if_neg h, if_pos (by simp; omega)]
+
+theorem u128_cmp_exact (u v : U128) (hu : u.WF) (hv : v.WF) :
+    U128.cmp u v = if u.toNat < v.toNat then -1 else if u.toNat = v.toNat then 0 else 1 := by
+  obtain ⟨h1, h0⟩ := hu
+  obtain ⟨k1, k0⟩ := hv
+  unfold U128.cmp U128.toNat
+  simp only [W] at *
+  repeat' split
+  all_goals first | rfl | omega
+
+/-- `Uint128.Mul` is exact (and signals overflow exactly) only when one of the two high limbs is zero:
+the model (like the Go code, finding D27b) never looks at `u.w1 * v.w1`.  The full statement
+
+  `U128.mul u v = if u.toNat * v.toNat < W * W then .ok (U128.ofNat (u.toNat * v.toNat)) else .error ()`
+
+is FALSE without `hz`, see `u128_mul_hh_not_exact`. -/
+theorem u128_mul_exact_partial (u v : U128) (hu : u.WF) (hv : v.WF) (hz : u.w1 = 0 ∨ v.w1 = 0) :
+    U128.mul u v = if u.toNat * v.toNat < W * W then .ok (U128.ofNat (u.toNat * v.toNat)) else .error () := by
+  obtain ⟨h1, h0⟩ := hu
+  obtain ⟨k1, k0⟩ := hv
+  unfold U128.mul bitsMul64 bitsAdd64 U128.toNat U128.ofNat
+  have b00 := mul_limb_le h0 k0
+  have b01 := mul_limb_le h0 k1
+  have b10 := mul_limb_le h1 k0
+  have e : (u.w1 * W + u.w0) * (v.w1 * W + v.w0) = (u.w1 * v.w0 + u.w0 * v.w1) * W + u.w0 * v.w0 := by
+    rcases hz with hz | hz
+    · simp [hz, Nat.mul_add, Nat.mul_assoc]
+    · simp [hz, Nat.add_mul, Nat.mul_right_comm]
+  rw [e]
+  generalize u.w0 * v.w0 = p00 at *
+  generalize u.w0 * v.w1 = p01 at *
+  generalize u.w1 * v.w0 = p10 at *
+  simp only [W] at *
+  by_cases h : (p10 + p01) * 18446744073709551616 + p00 < 18446744073709551616 * 18446744073709551616
+  · rw [if_pos h, if_neg (by simp; omega)]; congr 2 <;> omega
+  · rw [if_neg h, if_pos (by simp; omega)]
+
+/-- the hypothesis of `u128_mul_exact_partial` is satisfiable on a non-trivial operand pair
+(`2^64+2` times `4`), and the result is the exact product -/
+example : U128.WF ⟨1, 2⟩ ∧ U128.WF ⟨0, 4⟩ ∧ ((⟨1, 2⟩ : U128).w1 = 0 ∨ (⟨0, 4⟩ : U128).w1 = 0) ∧
+    U128.mul ⟨1, 2⟩ ⟨0, 4⟩ = .ok ⟨4, 8⟩ := by
+  refine ⟨by decide, by decide, Or.inr rfl, rfl⟩
+
+/-- counterexample to full exactness of `Uint128.Mul`: `(2^64+2) * (3*2^64+4)` does not fit in 128 bits
+but the model (and the Go code, whose own test pins this value) returns `{10, 8}` instead of panicking -/
+theorem u128_mul_hh_not_exact :
+    U128.WF ⟨1, 2⟩ ∧ U128.WF ⟨3, 4⟩ ∧ U128.mul ⟨1, 2⟩ ⟨3, 4⟩ = .ok ⟨10, 8⟩ ∧
+      ¬ ((U128.toNat ⟨1, 2⟩) * (U128.toNat ⟨3, 4⟩) < W * W) :=
+  ⟨by decide, by decide, rfl, by decide⟩
+
+/-! ## 256 bits -/
+
+theorem u256_add_exact (u v : U256) (hu : u.WF) (hv : v.WF) :
+    U256.add u v = if u.toNat + v.toNat < W ^ 4 then .ok (U256.ofNat (u.toNat + v.toNat)) else .error () := by
+  obtain ⟨h3, h2, h1, h0⟩ := hu
+  obtain ⟨k3, k2, k1, k0⟩ := hv
+  unfold U256.add bitsAdd64 U256.toNat U256.ofNat
+  simp only [W] at *
+  generalize hc0 : (u.w0 + v.w0 + 0) / 18446744073709551616 = c0
+  generalize hc1 : (u.w1 + v.w1 + c0) / 18446744073709551616 = c1
+  generalize hc2 : (u.w2 + v.w2 + c1) / 18446744073709551616 = c2
+  generalize hc3 : (u.w3 + v.w3 + c2) / 18446744073709551616 = c3
+  by_cases h : c3 = 0
+  · have : ¬ ((c3 != 0) = true) := by simp [h]
+    rw [if_neg this, if_pos (by omega)]; congr 2 <;> omega
+  · have : ((c3 != 0) = true) := by simp [h]
+    rw [if_pos this, if_neg (by omega)]
+
+theorem u256_sub_exact (u v : U256) (hu : u.WF) (hv : v.WF) :
+    U256.sub u v = if v.toNat ≤ u.toNat then .ok (U256.ofNat (u.toNat - v.toNat)) else .error () := by
+  obtain ⟨h3, h2, h1, h0⟩ := hu
+  obtain ⟨k3, k2, k1, k0⟩ := hv
+  unfold U256.sub U256.toNat U256.ofNat
+  have s0 := bitsSub64_spec h0 k0 (Nat.zero_le 1)
+  generalize bitsSub64 u.w0 v.w0 0 = r0 at *
+  obtain ⟨d0, b0⟩ := r0
+  have s1 := bitsSub64_spec h1 k1 s0.2.1
+  simp only [] at s1 ⊢
+  generalize bitsSub64 u.w1 v.w1 b0 = r1 at *
+  obtain ⟨d1, b1⟩ := r1
+  have s2 := bitsSub64_spec h2 k2 s1.2.1
+  simp only [] at s2 ⊢
+  generalize bitsSub64 u.w2 v.w2 b1 = r2 at *
+  obtain ⟨d2, b2⟩ := r2
+  have s3 := bitsSub64_spec h3 k3 s2.2.1
+  simp only [] at s3 ⊢
+  generalize bitsSub64 u.w3 v.w3 b2 = r3 at *
+  obtain ⟨d3, b3⟩ := r3
+  simp only [W] at *
+  by_cases h : b3 = 0
+  · have : ¬ ((b3 != 0) = true) := by simp [h]
+    rw [if_neg this, if_pos (by omega)]; congr 2 <;> omega
+  · have : ((b3 != 0) = true) := by simp [h]
+    rw [if_pos this, if_neg (by omega)]
+
+theorem u256_cmp_exact (u v : U256) (hu : u.WF) (hv : v.WF) :
+    U256.cmp u v = if u.toNat < v.toNat then -1 else if u.toNat = v.toNat then 0 else 1 := by
+  obtain ⟨h3, h2, h1, h0⟩ := hu
+  obtain ⟨k3, k2, k1, k0⟩ := hv
+  unfold U256.cmp U256.toNat
+  simp only [W] at *
+  repeat' split
+  all_goals first | rfl | omega
 
 end ObiVerif.Props.C20
